@@ -68,9 +68,9 @@ fn pfx_strategy() -> impl Strategy<Value = Pfx> {
             let a = if hostbits { a } else { a & m };
             Pfx { ip: IpAddr::V6(Ipv6Addr::from(a)), len }
         }),
-        2 => (any::<u32>(), 96u8..=128, any::<bool>()).prop_map(|(a, len, hostbits)| {
+        2 => (any::<u32>(), prop_oneof![4 => 96u8..=128, 1 => 0u8..=95], any::<bool>()).prop_map(|(a, len, hostbits)| {
             let full: u128 = 0xffff_0000_0000u128 | a as u128;
-            let m: u128 = u128::MAX << (128 - len as u32);
+            let m: u128 = if len == 0 { 0 } else { u128::MAX << (128 - len as u32) };
             let v = if hostbits { full } else { full & m };
             Pfx { ip: IpAddr::V6(Ipv6Addr::from(v)), len }
         }),
